@@ -307,7 +307,7 @@ def obligations(tier):
         Obligation("O4-ipv4-history", make_iphist(3 if thorough else 2, [0, 9], IP_FAMILIES if thorough else IP_FAMILIES[:2] + IP_FAMILIES[3:]), ["ipv4-consistent"],
                    desc="lines / specs through one cleaner after 0 or 9 earlier addresses: output == simultaneous replacement by the reported mapping; report injective, functional, nothing extra",
                    bounds={"lines": 3 if thorough else 2, "tokens per line": "1-2", "address families": (IP_FAMILIES if thorough else IP_FAMILIES[:2] + IP_FAMILIES[3:]), "recurrence": "any earlier token may recur", "earlier addresses": [0, 9]},
-                   stubs=K.STUBS, outside=outside, encoded=enc[:3] + enc[9:], budget_s=1500 if thorough else 200, replay="iphist", check_sample=True,
+                   stubs=K.STUBS, outside=outside, encoded=enc[:3] + enc[9:], budget_s=900 if thorough else 200, replay="iphist", check_sample=True,
                    classify=lambda case: signature(case, True)),
         Obligation("O5-hostname-history", make_hosthist(), ["hostname-consistent"], desc="host names of the system's domain over 1-2 lines through one cleaner",
                    bounds={"lines": "1-2", "tokens per line": "1-2", "hosts": "system fqdn, new symbolic 2-letter label, or an earlier one"}, stubs=K.STUBS, outside=outside,
